@@ -78,6 +78,7 @@ type Exec struct {
 	sym          *symSession
 	unitFType    *Contract
 	assumeSafe   bool
+	frameKeepOnly map[string]bool
 	unitProps    []string
 	tailNext     bool
 	retGuards    []*Term
